@@ -123,6 +123,11 @@ def scenarios(ctx, thorough):
                             k += 1
                         for a, b in sel:
                             scns.append(dict(base, before=a, after=b))
+    # the same driver object opened again after Close (and closed again)
+    for drv in ("generic", "network", "netconf"):
+        for cb in ("eof", "err"):
+            for rd in (40, 300):
+                scns.append({"driver": drv, "state": "reopen", "closes": 1, "closebeh": cb, "readdelay_us": rd, "before": "", "after": ""})
     # on-close hooks that fail (generic and network level): the close must go on and reach the transport
     for drv in ("generic", "network"):
         for st in ("idle", "eof", "err", "inflight"):
